@@ -17,11 +17,11 @@ def run(rep):
     compilerp.io_obligations(rep)
     enginep.topython_deductive(rep)
     q = rep.tier == 'quick'
-    fw.standin(rep, 's_c16.py', ['run', rep.seed, 300 if q else 5000],
+    fw.standin(rep, 's_c16.py', ['run', rep.seed, 1000 if q else 8000],
                'random literals (Unicode, quotes, newlines, nesting, list shapes) in fact/head/body/query position: to_python vs independent '
                'rendering; API-built terms unify with compiled literals; interning; cross-engine unification; distinct _',
                'literal terms depth <= 4')
-    fw.standin(rep, 'recog.py', ['run', 'tree', rep.seed + 5, 1200 if q else 20000],
+    fw.standin(rep, 'recog.py', ['run', 'tree', rep.seed + 5, 4000 if q else 30000],
                'terms and clause bodies read by the real parser+visitor vs the independent reader', 'grammar-derived programs')
     rep.assumptions += [A['A-EXT-ANTLR'], A['A-CPY-REPR'], A['A-EXT-REDUCE'], A['A-PY-STR']]
     rep.notes.append('unquoteString is verified with a loop invariant (result = the text between the quotes with every backslash removed); every `_` '
